@@ -64,6 +64,7 @@ func (r *router) startQuicServer(cfg *ServerConfig) (*quicServer, error) {
 	l, err := qt.Listen(tlsConfig, quicConfig)
 	if err != nil {
 		qt.Close()
+		uc.Close() // quic.Transport does not close a Conn it did not create
 		return nil, fmt.Errorf("failed to listen quic, %w", err)
 	}
 
